@@ -428,6 +428,33 @@ def format (cfg : Cfg) (toks : List Tok) : Except Err Str :=
   | .ok s => docHTML s.doctype s.root
   | .error e => .error e
 
+/-! ### the formatter object across calls: `_reset`, `feed` on a used object, `parseStr` (C03)
+
+Additions for C03; nothing above changes. -/
+
+/-- `AdvancedHTMLFormatter._reset`, field by field: `currentIndentLevel = 0; _inTag = []; root = None;
+    doctype = None; inPreformatted = 0` (`parsedData` is never read; the tokenizer's own reset is outside the
+    model).  `root = None` clears both places the model keeps the root in. -/
+def St.reset (s : St) : St := { s with level := 0, stack := [], closed := none, doctype := none, inPre := 0 }
+
+/-- One pass that also says in which state the object is LEFT: the raising handlers raise before they assign
+    anything, so after an exception the object is in the state it had before the offending token. -/
+def runS (cfg : Cfg) : List Tok → St → St × Option Err
+  | [], s => (s, none)
+  | t :: ts, s => match step cfg s t with
+    | .ok s' => runS cfg ts s'
+    | .error e => (s, some e)
+
+/-- `feed` on the object as it is (no reset): the pass; on MultipleRootNodeException `self.reset()` and the
+    wrapped text. -/
+def feedS (cfg : Cfg) (s : St) (toks : List Tok) : St × Option Err :=
+  match runS cfg toks s with
+  | (s1, some .multipleRoot) => runS cfg (wrapToks toks) s1.reset
+  | r => r
+
+/-- `parseStr` / `parseFile`: `self.reset()`, then `feed`. -/
+def parseStrS (cfg : Cfg) (s : St) (toks : List Tok) : St × Option Err := feedS cfg s.reset toks
+
 /-! ### the plain parser's handlers (Parser.py) — the tree C11 compares the formatter's tree with -/
 namespace Plain
 
